@@ -1,6 +1,7 @@
 package util
 
 import (
+	"sort"
 	"strings"
 
 	"github.com/zmap/zcrypto/x509"
@@ -47,5 +48,7 @@ func GetKeyUsageStrings(keyUsages x509.KeyUsage) []string {
 			keyUsageStrings = append(keyUsageStrings, strings.TrimPrefix(name, "KeyUsage"))
 		}
 	}
+	// KeyUsageToString is a map: sort so that the result does not depend on iteration order
+	sort.Strings(keyUsageStrings)
 	return keyUsageStrings
 }
